@@ -27,6 +27,13 @@ def frames_for(setname):
                 for p, q in itertools.combinations(pos, 2):
                     if p[0] != q[0]:
                         add(NT, T, v, (p, q))
+    def custom(NT, T, R, L, W, err=False):
+        for v in vectors(R, L, W):
+            if not err:
+                fr.append((NT, T, tuple(v), (), -1, False))
+            else:
+                for p in [(i, j) for i in range(R) for j in range(v[i])]:
+                    fr.append((NT, T, tuple(v), (p,), -1, False))
     if setname in ('dev',):
         plain(2, 2, 1, 3, 3, maxc=5); plain(2, 2, 2, 3, 4, maxc=5)
         with_error(2, 2, 2, 3, 4)
@@ -42,7 +49,9 @@ def frames_for(setname):
         seed(2, 2, (5, 0), (), 3)                          # S -> A A A A x; A -> eps (stack capacity witness)
         plain(1, 3, 3, 3, 7, minW=0)                      # operator grammars for C05: E -> ... over 3 terms
         plain(2, 3, 3, 3, 5)
+        custom(2, 2, 1, 3, 3); custom(2, 2, 2, 3, 4); custom(2, 2, 2, 2, 3, err=True)
     if setname == 'thorough':
+        custom(2, 2, 3, 3, 4); custom(2, 3, 2, 3, 4); custom(2, 2, 2, 3, 4, err=True)
         plain(3, 2, 3, 3, 6); plain(3, 2, 4, 2, 5)
         plain(2, 3, 4, 3, 5)
         plain(2, 2, 5, 2, 5)
@@ -52,7 +61,7 @@ def frames_for(setname):
     # de-duplicate, keep order
     seen = set(); out = []
     for f in fr:
-        k = f[:4]
+        k = f[:4] + (f[4] < 0,)
         if k in seen: continue
         seen.add(k); out.append(f)
     return out
@@ -66,7 +75,7 @@ def main():
     cost = [0] * ntus
     for f in sorted(fr, key=lambda f: -(len(f[2]) + sum(f[2]) + 3 * f[4])):
         k = cost.index(min(cost)); tus[k].append(f); cost[k] += 2 + len(f[2]) + sum(f[2]) + 3 * f[4]
-    order = {f[:4]: i for i, f in enumerate(fr)}
+    order = {f[:4] + (f[4] < 0,): i for i, f in enumerate(fr)}
     for k, lst in enumerate(tus):
         with open(os.path.join(outdir, 'frames_%02d.cpp' % k), 'w') as o:
             o.write('#include "gram_frame.hpp"\nnamespace {\n')
@@ -75,7 +84,7 @@ def main():
                 ar = ', '.join(str(x) for x in v)
                 er = ', '.join(str(i * 8 + j) for (i, j) in errs)
                 o.write('eg::Register' + ('Seed' if is_seed else '') + '<eg::Frame<%d, %d, std::integer_sequence<int%s>, std::integer_sequence<int%s>, %d>> r%d;\n'
-                        % (NT, T, (', ' + ar) if v else '', (', ' + er) if errs else '', maxc, order[f[:4]]))
+                        % (NT, T, (', ' + ar) if v else '', (', ' + er) if errs else '', maxc, order[f[:4] + (f[4] < 0,)]))
             o.write('}\n')
     print(len(fr))
 
